@@ -39,6 +39,7 @@ type rigReq struct {
 	Body    string              `json:"body,omitempty"`
 	Deny    []string            `json:"deny,omitempty"` // scheme names the callback refuses
 	NilCtx  bool                `json:"nilCtx,omitempty"` // … and it refuses with a nil context
+	BodyType string             `json:"bodyType,omitempty"` // declared type of the JSON body when it is not Item (bookkeeping for the model)
 }
 
 type rigIn struct {
